@@ -37,7 +37,9 @@ Inductive rres := RNone | RPkt (pn : Z) (frames : list range) | RErr (cls : Z).
 Inductive rop :=
 | RLose (pn : Z)
 | RAck (pn : Z)
-| RPack (probe ping : bool) (before popped after : list range) (aspacked : bool) (res : rres).
+| RPack (probe ping : bool) (before popped after : list range) (aspacked : bool) (res : rres)
+| RCoalesce (before popped after : list range) (aspacked : bool) (count : Z) (res : rres).
+      (* PackCoalescedPacket while Handshake keys and Handshake CRYPTO data are available *)
 
 (** a non-empty QUICFrames layout: QUICFrameCrypto{Offset, Length} or anything else *)
 Inductive lframe := LCrypto (off len : Z) | LOther.
@@ -148,6 +150,32 @@ Definition rstep (planned : bool) (layout : option (list lframe)) (st : rstate) 
       | _ => Some (RS (rOut st ++ [(pn, popped)]) q' (rAcked st), RPkt pn popped)
       end
     end
+  | RCoalesce _ popped _ _ _ res =>
+    match pop_check (rQueue st) popped with
+    | None => None
+    | Some q' =>
+      let pn := match res with RPkt pn _ => pn | _ => 0 end in
+      match popped with
+      | [] => Some (RS (rOut st) q' (rAcked st), RNone)          (* only the Handshake packet: not tracked here *)
+      | _ => Some (RS (rOut st ++ [(pn, popped)]) q' (rAcked st), RPkt pn popped)
+      end
+    end
+  end.
+
+(** PackCoalescedPacket (after fixes/C02-spec-initial-travels-alone.patch): how many QUIC packets
+    share the datagram when the Initial payload holds [frames] (CRYPTO ranges) and possibly a PING,
+    and Handshake data is ready or not.  An Initial packet with frames is serialised under the
+    spec's control (re-framing, PacketSize, UDPDatagramMinSize padding), so it travels alone. *)
+Definition coalesced_count (frames : list range) (ping handshake_ready : bool) : Z :=
+  match frames, ping with
+  | [], false => if handshake_ready then 1 else 0      (* no Initial packet: the Handshake packet alone *)
+  | _, _ => 1
+  end.
+(* before that repair the Handshake packet was appended behind the padded Initial packet *)
+Definition legacy_coalesced_count (frames : list range) (ping handshake_ready : bool) : Z :=
+  match frames, ping with
+  | [], false => if handshake_ready then 1 else 0
+  | _, _ => if handshake_ready then 2 else 1
   end.
 
 (** the same step before the repair *)
